@@ -124,6 +124,14 @@ def uncommit(
                 parents.extend(reversed(pending_merges))
                 tree.set_parent_ids(parents)
             if branch.supports_tags() and not keep_tags:
+                if master is not None:
+                    # Deleting a tag from a bound branch also deletes it from
+                    # the master, through a master branch object of its own
+                    # (setting the last revision dropped the cached one) that
+                    # takes its own write lock.  The master has been updated by
+                    # now, so release our lock rather than contend with it.
+                    unlockable.remove(master)
+                    master.unlock()
                 remove_tags(branch, graph, old_tip, parents)
     finally:
         for item in reversed(unlockable):
